@@ -570,8 +570,9 @@ def emit_fn(out, entry, mode, stats, canary=False):
                 t = toks[i]
                 if not (t.kind == IDENT and t.text == meth and n >= 2 and toks[body[n - 1]].text == "."):
                     continue
-                if not (n + 2 < len(body) and toks[body[n + 1]].text == "(" and br[body[n + 1]] == body[n + 2]):
+                if not (n + 2 < len(body) and toks[body[n + 1]].text == "("):
                     continue
+                empty_args = br[body[n + 1]] == body[n + 2]
                 pos_of = {tokidx: k for k, tokidx in enumerate(body)}
                 k = n - 2  # last token of receiver (index into body)
                 first = None
@@ -599,8 +600,18 @@ def emit_fn(out, entry, mode, stats, canary=False):
                     break
                 if first is None:
                     raise LostAnchor(f"{entry.id}: cannot find receiver of .{meth}()")
-                edits.append((body[first], body[first], (fpath[:-1] + "(&") if fpath.endswith("&") else (fpath + "("), dict(kind="gen", fn=entry.id, norm=tag)))
-                edits.append((body[n - 1], body[n + 2] + 1, ")", dict(kind="gen", fn=entry.id, norm=tag)))
+                if fpath.endswith("&mut"):
+                    head = fpath[:-4] + "(&mut "
+                elif fpath.endswith("&"):
+                    head = fpath[:-1] + "(&"
+                else:
+                    head = fpath + "("
+                edits.append((body[first], body[first], head, dict(kind="gen", fn=entry.id, norm=tag)))
+                if empty_args:
+                    edits.append((body[n - 1], body[n + 2] + 1, ")", dict(kind="gen", fn=entry.id, norm=tag)))
+                else:
+                    # `.m(` -> `, `   (the closing parenthesis of the call stays)
+                    edits.append((body[n - 1], body[n + 1] + 1, ", ", dict(kind="gen", fn=entry.id, norm=tag)))
                 stats.count(tag.lstrip("#"))
         # deref (N3)
         for name in entry.deref:
